@@ -466,7 +466,7 @@ func TestVerif_C19(t *testing.T) {
 	if kit.Tier() == "thorough" {
 		base = append(base, c19Exhaustive(3, []string{"p", "k"}, []string{"quit"})...)
 		base = append(base, c19Exhaustive(2, []string{"p", "k"}, []string{"disc"})...)
-		base = append(base, c19Random(kit.SubRand(seed, "C19/random"), 800, 8)...)
+		base = append(base, c19Random(kit.SubRand(seed, "C19/random"), 300, 8)...)
 	} else {
 		ex := c19Exhaustive(3, []string{"p", "k"}, []string{"quit"})
 		ex = append(ex, c19Exhaustive(2, []string{"p", "k"}, []string{"disc"})...)
@@ -503,7 +503,7 @@ func TestVerif_C19(t *testing.T) {
 	// timeout has to expire): the hand-picked scenarios plus a uniform sample of all candidates
 	faulted = append(faulted, c19Scenarios()...)
 	br := kit.SubRand(seed, "C19/block")
-	nb := kit.N(16, 300)
+	nb := kit.N(16, 200)
 	if nb > len(blockCand) {
 		nb = len(blockCand)
 	}
